@@ -228,6 +228,7 @@ func (s *StructType) IsValidExpression(exp Exp, pipeline *Pipeline, ast *Ast) er
 			}
 		}
 		if len(exp.Value) > len(s.Members) {
+			first := len(errs)
 			for key := range exp.Value {
 				if om := s.getMember(key); om == nil {
 					errs = append(errs, &IncompatibleTypeError{
@@ -235,6 +236,8 @@ func (s *StructType) IsValidExpression(exp Exp, pipeline *Pipeline, ast *Ast) er
 					})
 				}
 			}
+			// The map was iterated in random order; report in a stable one.
+			sortErrorsByMessage(errs[first:])
 		}
 		return errs.If()
 	default:
